@@ -87,6 +87,7 @@ type RunCtx struct {
 	Tasks       int
 	Policies    int
 	Switches    int
+	HistoryLen  int // stateful-object scenarios: number of mutating calls in the history
 }
 
 func NewRunCtx(st *Stats, status *StatusPage, trace bool) *RunCtx {
